@@ -157,12 +157,9 @@ IPv4Reassembler::key_type IPv4Reassembler::make_key(const IP* ip) const {
 }
 
 IPv4Reassembler::address_pair IPv4Reassembler::make_address_pair(IPv4Address addr1, IPv4Address addr2) const {
-    if (addr1 < addr2) {
-        return make_pair(addr1, addr2);
-    }
-    else {
-        return make_pair(addr2, addr1);
-    }
+    // Fragments are identified by their (source, destination) pair: datagrams
+    // flowing in opposite directions may legitimately use the same identification
+    return make_pair(addr1, addr2);
 }
 
 void IPv4Reassembler::clear_streams() {
